@@ -72,12 +72,20 @@ SuccExact(s, B) ==
   \A j \in 1..Len(B) :
      /\ IF Members(s, B, j) # {} THEN Recorded(s, B, j) = Expected(s, B, j) ELSE B[j].tg = <<B[j].e>>
      /\ \A k \in 1..Len(B[j].tg) : \E j2 \in 1..Len(B) : B[j2].b = B[j].tg[k]      \* a successor is named by its begin
+\* the instructions a block HANDS OUT (PythonBytecodeBlock.get_instructions, recorded as B[j].ins where available) are exactly the
+\* instructions inside its range, in stream order, each once - so the blocks' contents, not only their ranges, cover every instruction once
+InstrCover(s, B) ==
+  \A j \in 1..Len(B) : "ins" \in DOMAIN B[j] =>
+     LET mem == Members(s, B, j)
+         want == [k \in 1..Cardinality(mem) |-> s[CHOOSE i \in mem : Cardinality({m \in mem : m < i}) = k - 1].off]
+     IN B[j].ins = want
 Failed(s, B) ==
   IF ~Partition(s, B) THEN {"Partition"}
-  ELSE {c \in {"EntryOnlyAtFirst", "LeaveOnlyAfterLast", "SuccExact"} :
+  ELSE {c \in {"EntryOnlyAtFirst", "LeaveOnlyAfterLast", "SuccExact", "InstrCover"} :
           ~ CASE c = "EntryOnlyAtFirst" -> EntryOnlyAtFirst(s, B)
               [] c = "LeaveOnlyAfterLast" -> LeaveOnlyAfterLast(s, B)
-              [] c = "SuccExact" -> SuccExact(s, B)}
+              [] c = "SuccExact" -> SuccExact(s, B)
+              [] c = "InstrCover" -> InstrCover(s, B)}
 
 (******************************* Impl layer *******************************)
 \* FlowInfo.from_bytecode: block offsets = offset 0, every instruction flagged as jump target, and the recorded targets of
